@@ -408,6 +408,18 @@ func compactPool(c Case) Case {
 		if r {
 			usedR[op.E][op.R] = true
 		}
+		// constructors observe their result against a few neighbours as well
+		switch op.K {
+		case "newv":
+			for k := 1; k < 4; k++ {
+				usedV[op.E][op.A+k] = true
+			}
+			usedR[op.E][op.R+1] = true
+		case "newr":
+			for k := 1; k < 3; k++ {
+				usedV[op.E][op.A+k] = true
+			}
+		}
 		if l {
 			for _, i := range op.L {
 				usedV[op.E][i] = true
